@@ -157,6 +157,7 @@ def check(ctx) -> None:
     r81(ctx)
     r82(ctx)
     r83(ctx)
+    r84(ctx)
 
 
 def r81(ctx) -> None:
@@ -315,3 +316,80 @@ def r83(ctx) -> None:
                 ok = True
     r.check(ok, f, f.node, 'maildir rename_mailbox refuses INBOX as source',
             'renaming INBOX on maildir would rename the store root itself')
+
+
+TRANSFORM_OK = {'join', 'split', 'list', 'tuple', 'len', 'isdir', 'exists',
+                'listdir', 'walk', 'rename', 'remove', 'rmdir', 'mkdir',
+                'open', 'range', 'enumerate', 'repr', 'str', 'startswith',
+                'FileNotFoundError', 'FileExistsError', 'OSError',
+                'NotSupportedError', 'getmtime', 'isfile', 'makedirs'}
+
+
+def r84(ctx) -> None:
+    R = ctx.rule('R8.4', 'the validated name is used as validated', 4)
+    m = ctx.proj.module(LAYOUT)
+    san = sanitisers(ctx)
+    # (a) a sanitiser does not rewrite the name before its tests, and only
+    # the literal INBOX maps to the store root
+    for name in san:
+        for f in [x for x in m.funcs.values() if x.name == name]:
+            params = [p for p in f.params() if p in NAME_PARAMS]
+            for p in params:
+                reb = [s_ for s_ in walk_local(f.node)
+                       if any(is_name(t, p) for t in targets_of(s_))]
+                R.check(not reb, f, reb[0] if reb else f.node,
+                        f'{f.qualname}: `{p}` is not rewritten before it is '
+                        f'tested',
+                        f'`{p}` is reassigned inside {f.qualname} '
+                        f'(`{txt(reb[0])[:60] if reb else ""}`): the INBOX '
+                        f'guards in DELETE/RENAME/CREATE compare the name '
+                        f'the client sent, so any normalisation here makes '
+                        f'an alias (e.g. "INBOX/") that passes those guards '
+                        f'and resolves to the store root')
+            cfg = cfg_of(f)
+            for n in cfg.find(lambda n: isinstance(n.stmt, ast.Return)
+                              and isinstance(n.stmt.value, (ast.List,
+                                                            ast.Tuple))
+                              and not n.stmt.value.elts):
+                ok = any(t.kind == 'test' and guard_atoms(t.stmt.test) in
+                         [[(f"{p} == 'INBOX'", True)] for p in params]
+                         and cfg.controlled_by(n, t, 't') for t in cfg.nodes)
+                R.check(ok, f, n.stmt, f'{f.qualname}: the empty part list '
+                        f'(store root) only for the literal INBOX',
+                        'the store root is returned for names other than '
+                        'the literal INBOX')
+    # (b) parts are not transformed between validation and the path sinks
+    for f in m.funcs.values():
+        if f.cls is None or f.cls.name == 'MaildirLayout':
+            continue
+        pp = [p for p in f.params() if p.endswith('parts') or p == 'parts']
+        if not pp or f.name in san:
+            continue
+        taint = set(pp)
+        for s_ in walk_local(f.node):
+            if isinstance(s_, (ast.For, ast.comprehension)):
+                if names_in(s_.iter) & taint:
+                    taint |= names_in(s_.target)
+        bad = []
+        for c in calls_in(f.node):
+            nm = call_name(c)
+            involved = set()
+            for a in c.args:
+                involved |= names_in(a)
+            if isinstance(c.func, ast.Attribute):
+                involved |= names_in(c.func.value) - {'os', 'self', 'cls'}
+            if not (involved & taint):
+                continue
+            if nm in TRANSFORM_OK or (isinstance(c.func, ast.Attribute)
+                                      and is_name(c.func.value, 'self')) or \
+                    (isinstance(c.func, ast.Attribute)
+                     and is_name(c.func.value, 'cls')):
+                continue
+            bad.append(c)
+        R.check(not bad, f, bad[0] if bad else f.node,
+                f'{f.qualname}: parts reach the path unchanged',
+                f'{f.qualname} applies {[txt(c.func) for c in bad]} to the '
+                f'validated name parts on the way to the filesystem path: a '
+                f'transformation AFTER validation can re-create "..", "." '
+                f'or "/" (e.g. NFKC maps U+2025 to ".." and U+FF0F to "/"), '
+                f'so the path escapes the store')
